@@ -548,6 +548,18 @@ impl CelValue {
         }
     }
 
+    /// Result of a checked integer operation: `None` means the exact result
+    /// does not fit the result type.
+    fn checked_or_overflow<T: Into<CelValue>>(val: Option<T>, op: &str) -> CelValue {
+        match val {
+            Some(v) => v.into(),
+            None => CelValue::from_err(CelError::value(&format!(
+                "Integer overflow in '{}'",
+                op
+            ))),
+        }
+    }
+
     pub fn index(self, ival: CelValue) -> CelValue {
         self.error_prop_or(ival, |obj, index| match obj {
             CelValue::List(list) => {
@@ -1241,12 +1253,12 @@ impl Add for CelValue {
             match lhs {
                 CelValue::Int(val1) => {
                     if let CelValue::Int(val2) = rhs {
-                        return CelValue::from(val1 + val2);
+                        return CelValue::checked_or_overflow(val1.checked_add(val2), "+");
                     }
                 }
                 CelValue::UInt(val1) => {
                     if let CelValue::UInt(val2) = rhs {
-                        return CelValue::from(val1 + val2);
+                        return CelValue::checked_or_overflow(val1.checked_add(val2), "+");
                     }
                 }
                 CelValue::Float(val1) => {
@@ -1313,12 +1325,12 @@ impl Sub for CelValue {
             match lhs {
                 CelValue::Int(val1) => {
                     if let CelValue::Int(val2) = rhs {
-                        return CelValue::from(val1 - val2);
+                        return CelValue::checked_or_overflow(val1.checked_sub(val2), "-");
                     }
                 }
                 CelValue::UInt(val1) => {
                     if let CelValue::UInt(val2) = rhs {
-                        return CelValue::from(val1 - val2);
+                        return CelValue::checked_or_overflow(val1.checked_sub(val2), "-");
                     }
                 }
                 CelValue::Float(val1) => {
@@ -1364,12 +1376,12 @@ impl Mul for CelValue {
             match lhs {
                 CelValue::Int(val1) => {
                     if let CelValue::Int(val2) = rhs {
-                        return CelValue::from(val1 * val2);
+                        return CelValue::checked_or_overflow(val1.checked_mul(val2), "*");
                     }
                 }
                 CelValue::UInt(val1) => {
                     if let CelValue::UInt(val2) = rhs {
-                        return CelValue::from(val1 * val2);
+                        return CelValue::checked_or_overflow(val1.checked_mul(val2), "*");
                     }
                 }
                 CelValue::Float(val1) => {
@@ -1409,7 +1421,8 @@ impl Div for CelValue {
                             return CelValue::from_err(CelError::DivideByZero);
                         }
 
-                        return CelValue::from(val1 / val2);
+                        // i64::MIN / -1 is the only quotient that does not fit
+                        return CelValue::checked_or_overflow(val1.checked_div(val2), "/");
                     }
                 }
                 CelValue::UInt(val1) => {
@@ -1454,11 +1467,20 @@ impl Rem for CelValue {
             match lhs {
                 CelValue::Int(val1) => {
                     if let CelValue::Int(val2) = rhs {
-                        return CelValue::from(val1 % val2);
+                        if val2 == 0 {
+                            return CelValue::from_err(CelError::DivideByZero);
+                        }
+
+                        // the remainder always fits (i64::MIN % -1 == 0)
+                        return CelValue::from(val1.wrapping_rem(val2));
                     }
                 }
                 CelValue::UInt(val1) => {
                     if let CelValue::UInt(val2) = rhs {
+                        if val2 == 0 {
+                            return CelValue::from_err(CelError::DivideByZero);
+                        }
+
                         return CelValue::from(val1 % val2);
                     }
                 }
@@ -1485,7 +1507,7 @@ impl Neg for CelValue {
 
         match self {
             CelValue::Int(val1) => {
-                return CelValue::from(-val1);
+                return CelValue::checked_or_overflow(val1.checked_neg(), "-");
             }
             CelValue::Float(val1) => {
                 return CelValue::from(-val1);
